@@ -708,9 +708,12 @@ func (s *Syncer) acceptLoop(ctx context.Context) error {
 			}
 
 			t, err := gateway.Accept(conn, s.header)
-			if err != nil || s.alreadyConnected(t.UniqueID) {
+			if err != nil {
 				// note: most likely a timeout or other temp network error.
 				// logging is very noisy
+				return
+			} else if s.alreadyConnected(t.UniqueID) {
+				t.Close()
 				return
 			}
 			conn.SetDeadline(time.Time{})
@@ -721,6 +724,10 @@ func (s *Syncer) acceptLoop(ctx context.Context) error {
 			}
 			if err := s.addPeer(p); err != nil {
 				s.log.Debug("failed to add peer", zap.Stringer("remoteAddress", conn.RemoteAddr()), zap.Error(err))
+				// closing the connection is not enough: the transport's
+				// goroutines do not notice it while a frame of the peer is
+				// waiting to be read
+				t.Close()
 				return
 			}
 			s.runPeer(p)
@@ -992,7 +999,7 @@ func (s *Syncer) Connect(ctx context.Context, addr string) (*Peer, error) {
 		conn.Close()
 		return nil, err
 	} else if s.alreadyConnected(t.UniqueID) {
-		conn.Close()
+		t.Close()
 		return nil, errors.New("already connected")
 	}
 	p := &Peer{
@@ -1001,6 +1008,7 @@ func (s *Syncer) Connect(ctx context.Context, addr string) (*Peer, error) {
 		Inbound:  false,
 	}
 	if err := s.addPeer(p); err != nil {
+		t.Close()
 		return nil, fmt.Errorf("failed to add peer: %w", err)
 	}
 
